@@ -13,7 +13,7 @@ PRIMARY = {"_threshold", "_non_local", "_similarity_measure"}
 
 def f1(run: Run, prog: Program):
     fam = prog.subclasses("ClimateNetwork")
-    run.floor("ClimateNetwork family", len(fam), 10)
+    run.floor("ClimateNetwork family", len(fam), 10, hard=True)
     n = 0
     for C in fam:
         for name, f in sorted(prog.all_methods(C).items()):
